@@ -233,8 +233,8 @@ pub proof fn lemma_index_at_stable(d: Seq<u8>, d2: Seq<u8>, off: int, t: TreeId,
 }
 /// the freshly appended index lies at the old end of the file
 pub proof fn lemma_index_appended(d: Seq<u8>, t: TreeId, o: BBIWriteOptions, count: u64)
-    requires index_bytes(t, o, count, d.len() as int).len() >= 48,
-    ensures index_at(d + index_bytes(t, o, count, d.len() as int), d.len() as int, t, o, count),
+    ensures index_bytes(t, o, count, d.len() as int).len() >= 48 ==>
+        index_at(d + index_bytes(t, o, count, d.len() as int), d.len() as int, t, o, count),
 {
     lemma_appended_region(d, index_bytes(t, o, count, d.len() as int));
 }
